@@ -25,6 +25,7 @@ func init() {
 			"(R15.5) the errno mapping covers every experimental/sys.Errno constant; (R15.7) after an entry was removed from the descriptor table no failing return is feasible (callee failure conditions are excluded by dominating checks). " +
 			"NOT decided: absence of every Go run-time error in the 46 functions (nil dereference, division, type assertion).",
 		Rules: []core.Rule{
+			{ID: "R15.10", Template: "T-PAIR", Text: "the parallel slices of the descriptor table (presence bitmap, items) are only ever resized together", Min: 1},
 			{ID: "R15.9", Template: "T-CONSULT", Text: "the file system of a descriptor entry is used only once the entry is known to be a directory (IsDir edge, nil test, or successful path resolution)", Min: 2},
 			{ID: "R15.8", Template: "error discipline", Text: "the result of every guest-memory write of a WASI function is checked (genuine defects found and fixed: sock_accept, sock_recv, sock_send)", Min: 1},
 			{ID: "R15.1", Template: "T-WHOCALLS", Text: "no direct access to MemoryInstance.Buffer in imports/", Min: 1},
@@ -36,6 +37,7 @@ func init() {
 		},
 		Run: runC15,
 		Controls: []core.Control{
+			{Name: "table-shrinks-bitmap-only", File: "internal/descriptor/table.go", Old: "\t\t\tt.masks[index] = mask & ^uint64(1<<shift)\n", New: "\t\t\tt.masks[index] = mask & ^uint64(1<<shift)\n\t\t\tfor n := len(t.masks); n > 1 && t.masks[n-1] == 0; n-- {\n\t\t\t\tt.masks = t.masks[:n-1]\n\t\t\t}\n", Rule: "R15.10", Substr: "Delete"},
 			{Name: "atpath-preopen-before-isdir", File: "imports/wasi_snapshot_preview1/fs.go", Old: "\t} else if isDir, errno := f.File.IsDir(); errno != 0 {\n\t\treturn nil, \"\", errno\n", New: "\t} else if f.IsPreopen && fd > 2 {\n\t\treturn f.FS, pathName, 0\n\t} else if isDir, errno := f.File.IsDir(); errno != 0 {\n\t\treturn nil, \"\", errno\n", Rule: "R15.9", Substr: "atPath"},
 			{Name: "sock-accept-result-unchecked", File: "imports/wasi_snapshot_preview1/sock.go", Old: "\t\tif !mem.WriteUint32Le(resultFd, uint32(connFD)) {\n\t\t\t// The guest cannot learn the descriptor: do not leave the connection in its table.\n\t\t\t_ = fsc.CloseFile(connFD)\n\t\t\treturn sys.EFAULT\n\t\t}\n", New: "\t\tmem.WriteUint32Le(resultFd, uint32(connFD))\n", Rule: "R15.8", Substr: "sockAcceptFn"},
 			{Name: "direct-buffer-access", File: "imports/wasi_snapshot_preview1/random.go", Old: "\trandomBytes, ok := mod.Memory().Read(buf, bufLen)\n\tif !ok { // out-of-range\n\t\treturn sys.EFAULT\n\t}\n", New: "\tmemBuf := mod.(*wasm.ModuleInstance).MemoryInstance.Buffer\n\tok := uint64(buf)+uint64(bufLen) <= uint64(len(memBuf))\n\tif !ok { // out-of-range\n\t\treturn sys.EFAULT\n\t}\n\trandomBytes := memBuf[buf : buf+bufLen]\n", Rule: "R15.1", Substr: "Buffer"},
@@ -43,6 +45,7 @@ func init() {
 			{Name: "poll-guard-removed", File: "imports/wasi_snapshot_preview1/poll.go", Old: "\tif nsubscriptions > math.MaxUint32/48 {\n\t\treturn sys.EFAULT\n\t}\n", New: "\t_ = math.MaxUint32\n", Rule: "R15.3", Substr: "pollOneoffFn"},
 			{Name: "writev-index-loop", File: "imports/wasi_snapshot_preview1/fs.go", Old: "\tfor iovsPos := uint32(0); iovsPos < iovsStop; iovsPos += 8 {\n\t\toffset := le.Uint32(iovsBuf[iovsPos:])\n\t\tl := le.Uint32(iovsBuf[iovsPos+4:])\n\n\t\tb, ok := mem.Read(offset, l)\n\t\tif !ok {\n\t\t\treturn 0, experimentalsys.EFAULT\n\t\t}\n\t\tn, errno := writer(b)", New: "\tfor i := uint32(0); i < iovsCount; i++ {\n\t\toffset := le.Uint32(iovsBuf[i*8:])\n\t\tl := le.Uint32(iovsBuf[i*8+4:])\n\n\t\tb, ok := mem.Read(offset, l)\n\t\tif !ok {\n\t\t\treturn 0, experimentalsys.EFAULT\n\t\t}\n\t\tn, errno := writer(b)", Rule: "R15.3", Substr: "writev", Old2: "\tvar nwritten uint32\n\tif iovsCount > math.MaxUint32>>3 { // iovsCount * 8 would wrap around: such an array fits in no memory.\n\t\treturn 0, experimentalsys.EFAULT\n\t}\n", New2: "\tvar nwritten uint32\n"},
 			{Name: "dirent-cache-reserves-guest-count", File: "internal/sys/fs.go", Old: "\t\t// Try to read more, which could fail.\n\t\tif dirents, errno = d.f.Readdir(countToRead); errno != 0 {", New: "\t\td.dirents = append(make([]sys.Dirent, 0, len(d.dirents)+countToRead), d.dirents...)\n\t\t// Try to read more, which could fail.\n\t\tif dirents, errno = d.f.Readdir(countToRead); errno != 0 {", Rule: "R15.4", Substr: "DirentCache"},
+			{Name: "writev-gathers-sum-of-lengths", File: "imports/wasi_snapshot_preview1/fs.go", Old: "\tfor iovsPos := uint32(0); iovsPos < iovsStop; iovsPos += 8 {\n\t\toffset := le.Uint32(iovsBuf[iovsPos:])\n\t\tl := le.Uint32(iovsBuf[iovsPos+4:])\n\n\t\tb, ok := mem.Read(offset, l)\n\t\tif !ok {\n\t\t\treturn 0, experimentalsys.EFAULT\n\t\t}\n\t\tn, errno := writer(b)", New: "\tvar total uint64\n\tfor p := uint32(0); p < iovsStop; p += 8 {\n\t\ttotal += uint64(le.Uint32(iovsBuf[p+4:]))\n\t}\n\tgathered := make([]byte, 0, total)\n\t_ = gathered\n\tfor iovsPos := uint32(0); iovsPos < iovsStop; iovsPos += 8 {\n\t\toffset := le.Uint32(iovsBuf[iovsPos:])\n\t\tl := le.Uint32(iovsBuf[iovsPos+4:])\n\n\t\tb, ok := mem.Read(offset, l)\n\t\tif !ok {\n\t\t\treturn 0, experimentalsys.EFAULT\n\t\t}\n\t\tn, errno := writer(b)", Rule: "R15.4", Substr: "writev"},
 			{Name: "random-allocates-first", File: "imports/wasi_snapshot_preview1/random.go", Old: "\trandomBytes, ok := mod.Memory().Read(buf, bufLen)\n\tif !ok { // out-of-range\n\t\treturn sys.EFAULT\n\t}\n", New: "\ttmp := make([]byte, bufLen)\n\t_ = tmp\n\trandomBytes, ok := mod.Memory().Read(buf, bufLen)\n\tif !ok { // out-of-range\n\t\treturn sys.EFAULT\n\t}\n", Rule: "R15.4", Substr: "randomGetFn"},
 			{Name: "errno-unmapped", File: "internal/wasip1/errno.go", Old: "\tcase sys.EROFS:\n\t\treturn ErrnoRofs\n", New: "", Rule: "R15.5", Substr: "ToErrno"},
 			{Name: "insertat-can-fail-after-delete", File: "internal/descriptor/table.go", Old: "\tif key < 0 {\n\t\treturn false\n\t}\n\tindex := uint(key) / 64\n\tif diff", New: "\tif key < 0 || key > 1<<20 {\n\t\treturn false\n\t}\n\tindex := uint(key) / 64\n\tif diff", Rule: "R15.7", Substr: "Renumber"},
@@ -95,6 +98,37 @@ func guestDerived(v ssa.Value, depth int, seen map[ssa.Value]bool) bool {
 				return true
 			}
 		}
+	case *ssa.Extract:
+		return guestDerived(x.Tuple, depth+1, seen)
+	case *ssa.Call:
+		// a number decoded from guest memory (an iovec length, a subscription field) is as guest-controlled as a parameter
+		return decodesGuestNumber(x)
+	}
+	return false
+}
+
+// decodesGuestNumber: le.Uint16/32/64(buf) of encoding/binary, or Memory.ReadUint16Le/ReadUint32Le/ReadUint64Le/ReadByte.
+func decodesGuestNumber(call *ssa.Call) bool {
+	var fn *types.Func
+	if call.Call.IsInvoke() {
+		fn = call.Call.Method
+	} else if sc := call.Call.StaticCallee(); sc != nil {
+		fn, _ = sc.Object().(*types.Func)
+	}
+	if fn == nil || fn.Pkg() == nil {
+		return false
+	}
+	switch fn.Pkg().Path() {
+	case "encoding/binary":
+		switch fn.Name() {
+		case "Uint16", "Uint32", "Uint64":
+			return true
+		}
+	case "github.com/tetratelabs/wazero/api":
+		switch fn.Name() {
+		case "ReadUint16Le", "ReadUint32Le", "ReadUint64Le", "ReadByte":
+			return true
+		}
 	}
 	return false
 }
@@ -102,6 +136,8 @@ func guestDerived(v ssa.Value, depth int, seen map[ssa.Value]bool) bool {
 func runC15(c *core.Ctx) {
 	checkWasiOutputsChecked(c)
 	checkFSOnlyOfDirectories(c)
+	c.SSA()
+	checkTableSlicesResizedTogether(c)
 	c.SSA()
 	wasiRel := "imports/wasi_snapshot_preview1"
 	fns := moduleFns(c, wasiRel)
